@@ -126,6 +126,14 @@ def check_decisions(subj, events, cnt, viol, label):
             end = sorted(((d.triple, d.weight) for t in win.ends for d in t.descs), key=skey)
             partner = ccws[-1]
             pc = sorted(((tuple(c[0]), c[1]) for c in partner["cands"]), key=skey)
+            # the open descriptor must have been drawn among ALL open descriptors of the growing molecule (the list observed at attach entry)
+            open_pick = partner if partner["bond"] is None else (ccws[-2] if len(ccws) >= 2 and ccws[-2]["bond"] is None else None)
+            if open_pick is not None and e.get("open_before") is not None:
+                oc = sorted(((tuple(c[0]), c[1]) for c in open_pick["cands"]), key=skey)
+                ob = sorted(((tuple(t), w) for t, w in e["open_before"]), key=skey)
+                cnt["open_picks_checked"] += 1
+                if not same_cands(oc, ob):
+                    viol.append({"cls": "c08.insitu.open-pick-not-among-all-open-descriptors", "msg": f"the open descriptor was drawn among {oc}, the molecule's open descriptors are {ob}", "text": subj.text, "label": label})
             if partner["bond"] is None:
                 # the partner came from a transition list: the last raw choice must carry the chosen open descriptor's list
                 opick = partner
